@@ -331,6 +331,47 @@ func replayFree(u *Universe, h History, dir string, seed int64, traced, queries 
 		}
 		w.qB, w.qT = nil, nil
 	}
+	// a block step that met an injected fault lost its tip: the wallet catches up with the next one, so the node mines
+	// on (empty blocks, recorded like any chain action) whenever the follower is idle but not on the node's tip
+	extraBlocks := 0
+	idMap := map[int]int{}
+	actual := func(id int) int {
+		if a, ok := idMap[id]; ok {
+			return a
+		}
+		return id
+	}
+	repairs, lastRepair := 0, time.Now()
+	repair := func() error {
+		if rec == nil || faults == 0 || atomic.LoadInt64(&rec.injected) == 0 {
+			return nil
+		}
+		nb, nt := w.H.VerifQueued()
+		tip := w.E.Tip()
+		if w.H.VerifBestBlock().Hash == *tip.Hash() || nb != 0 || nt != 0 || time.Since(lastRepair) < 300*time.Millisecond || repairs >= 6 {
+			return nil
+		}
+		next, parent := 0, -1
+		for id, b := range w.Blk {
+			if id > next {
+				next = id
+			}
+			if *b.Hash() == *tip.Hash() {
+				parent = id
+			}
+		}
+		if parent < 0 || next+1 > len(u.CbId) {
+			return fmt.Errorf("harness: the universe has no block left to make up for a tip lost to an injected fault")
+		}
+		if err := rec.chain(&Step{A: "Extend", B: next + 1, P: parent, Txs: [][]string{{}}}); err != nil {
+			return fmt.Errorf("harness: repair block: %v", err)
+		}
+		flush()
+		extraBlocks++ // blocks are numbered in creation order: the history's later blocks move up by one
+		repairs++
+		lastRepair = time.Now()
+		return nil
+	}
 	for i := range h {
 		s := &h[i]
 		switch s.A {
@@ -347,12 +388,42 @@ func replayFree(u *Universe, h History, dir string, seed int64, traced, queries 
 				}
 			}
 			if needed && (s.A != "ImportStep" || s.Done) {
-				if err := w.waitTask(s.W, s.A != "ImportStep"); err != nil {
+				if err := w.waitTask(s.W, s.A != "ImportStep", repair); err != nil {
+					if strings.HasPrefix(err.Error(), "harness:") {
+						return Result{OK: false, Step: i, Action: s.A, Err: err.Error()}
+					}
 					return Result{OK: false, Step: i, Action: s.A, Sig: "free-not-quiescent", Compared: 1,
 						Diffs: []Diff{{Kind: "free-not-quiescent", What: "free-running worker", Want: "the background task finishes within 30s", Got: err.Error()}}}
 				}
 			}
 			continue
+		}
+		if extraBlocks > 0 || len(idMap) > 0 {
+			// renumber: blocks this step creates come after the repair blocks made so far
+			c := *s
+			switch c.A {
+			case "Extend", "Fork", "ForkSlow":
+				n := len(c.Txs)
+				if n == 0 {
+					n = 1
+				}
+				for k := 0; k < n; k++ {
+					idMap[s.B+k] = s.B + k + extraBlocks
+				}
+				c.B, c.P = s.B+extraBlocks, actual(s.P)
+				// the history chose this content for ITS chain (which coinbase a transaction spends depends on the
+				// block numbers): blocks mined after a repair block stay empty
+				c.Txs = make([][]string, n)
+				for k := range c.Txs {
+					c.Txs[k] = []string{}
+				}
+				if next := c.B + n - 1; next > len(u.CbId) {
+					return Result{OK: false, Err: "harness: the universe has no block left after the repair blocks"}
+				}
+			case "SwitchTo", "ReorgStep":
+				c.B = actual(s.B)
+			}
+			s = &c
 		}
 		var err error
 		switch {
@@ -379,36 +450,15 @@ func replayFree(u *Universe, h History, dir string, seed int64, traced, queries 
 		atomic.StoreInt64(&rec.faultsLeft, 0) // no fault from here on
 		injected = atomic.LoadInt64(&rec.injected)
 	}
-	repairs, lastRepair := 0, time.Now()
 	for {
 		nb, nt := w.H.VerifQueued()
 		st, serr := w.W.SyncedTo()
 		onTip := int(st)-u.Offset == exp.Synced
 		if injected > 0 {
-			// a block step that met a fault lost its tip: the wallet catches up with the next one, so the node mines on
-			// (empty blocks, recorded like any chain action) until the follower stands on the node's tip
-			tip := w.E.Tip()
-			onTip = w.H.VerifBestBlock().Hash == *tip.Hash()
-			if !onTip && nb == 0 && nt == 0 && time.Since(lastRepair) > 300*time.Millisecond && repairs < 5 {
-				next, parent := 0, -1
-				for id, b := range w.Blk {
-					if id > next {
-						next = id
-					}
-					if *b.Hash() == *tip.Hash() {
-						parent = id
-					}
-				}
-				if parent < 0 || next+1 > len(u.CbId) {
-					return Result{OK: false, Err: "harness: the universe has no block left to make up for a tip lost to an injected fault"}
-				}
-				if err := rec.chain(&Step{A: "Extend", B: next + 1, P: parent, Txs: [][]string{{}}}); err != nil {
-					return Result{OK: false, Err: "harness: repair block: " + err.Error()}
-				}
-				flush()
-				repairs++
-				lastRepair = time.Now()
+			if err := repair(); err != nil {
+				return Result{OK: false, Err: err.Error()}
 			}
+			onTip = w.H.VerifBestBlock().Hash == *w.E.Tip().Hash()
 		}
 		idle := nb == 0 && nt == 0 && w.H.VerifTaskQueueLen() == 0 && serr == nil && onTip
 		if idle {
@@ -477,10 +527,15 @@ func (w *World) doFree(s *Step) error {
 }
 
 // waitTask waits until the removal (gone) or the import (ready) of the wallet has finished.
-func (w *World) waitTask(name string, gone bool) error {
+func (w *World) waitTask(name string, gone bool, whileWaiting func() error) error {
 	wl := w.Wals[name]
 	deadline := time.Now().Add(30 * time.Second)
 	for {
+		if whileWaiting != nil {
+			if err := whileWaiting(); err != nil {
+				return err
+			}
+		}
 		sums, err := w.W.Wallets()
 		if err == nil {
 			found, ready := false, false
